@@ -660,6 +660,23 @@ def flood_fairness(run, pv, rng, idx):
             if nm == 'sb_keep_alive' and vals['id'] == 4711:
                 state['answered_after'] = state['sent']
                 break
+        if state['answered_after'] is None:
+            # (the poll above looks at the socket only: an answer whose two
+            # sends arrived apart - a time-out on the first piece - sits in
+            # this side's own buffer and is never polled again.  Look there
+            # before saying it never came.)
+            try:
+                for _ in range(50):
+                    fr = io.recv_frame(0.2)
+                    if fr is None:
+                        break
+                    nm, vals = codec.decode('play', fr[0], fr[1])
+                    if nm == 'sb_keep_alive' and vals['id'] == 4711:
+                        state['answered_after'] = state['sent']
+                        state['noticed_late'] = True
+                        break
+            except (mcserver.ScriptTimeout, OSError):
+                pass
         did, dp = codec.encode('play_disconnect', {'reason': '"end"'})
         try:
             io.send_frame(did, dp)
@@ -690,6 +707,9 @@ def flood_fairness(run, pv, rng, idx):
                           '%d further frames without pause (queued answers '
                           'must be written between read batches)'
                           % state['sent'], dict(w, sent=state['sent']))
+        elif state.get('noticed_late'):
+            # when exactly it came is not known: nothing to judge
+            run.count('directed.flood_answer_noticed_late')
         else:
             run.seen('flood.answered_within', min(
                 b for b in (1000, 5000, 20000, 60000)
